@@ -153,8 +153,16 @@ def run(ctx):
         nrm = torch.tensor([[0.1, 0.2, 1.0], [0.2, -0.1, 0.9]], dtype=torch.float32)
         jvp_check(ctx, 'reflect/direction', lambda x: LR.reflect(torch.stack([torch.zeros(3), x]), nrm)[:, 1], rnd(3, dtype=torch.float32), 2e-2, 2e-3,
                   None)
-        dvec = rnd(3); dvec = dvec / dvec.norm()
         nvec = torch.tensor([0.1, 0.2, 1.0], dtype=D)
+        dvec = rnd(3); dvec = dvec / dvec.norm()
+        for _ in range(50):          # the refract entries below are ALWAYS run: redraw until the incidence is clearly away from grazing
+            if abs(float((dvec * nvec).sum())) > 0.3:
+                break
+            dvec = rnd(3); dvec = dvec / dvec.norm()
+        else:
+            dvec = torch.tensor([0.2, -0.1, 0.9746794344808963], dtype=D)
+        if float((dvec * nvec).sum()) < 0:
+            dvec = -dvec          # towards the far side of the surface
         if abs(float((dvec * nvec).sum())) > 0.3:
             jvp_check(ctx, 'refract/direction', lambda x: LR.refract(torch.stack([torch.zeros(3, dtype=D), x]).unsqueeze(0),
                                                                      torch.stack([torch.zeros(3, dtype=D), nvec]).unsqueeze(0), 1.0, 1.5, error=1e-9)[0, 1],
